@@ -315,6 +315,17 @@ theorem lq_history (frames : List (List (φ × R))) (s : LQ φ) (hs : s.Inv) :
 
 end lq
 
+/-- The tracks the *input* instances already carry (re-tracking) are not an input of the model: a
+    detection is its feature and its instance score.  Two inputs that differ only in attached tracks
+    `τ` give the same step (trivially — recorded because the real `Tracker.track` must behave so:
+    seeded C09-r7m1, finding F-C09e). -/
+theorem track_ignores_input_tracks {R φ τ : Type} [LT R] [DecidableLT R] [Add R] [Div R] [OfNat R 0]
+    [NatCast R] [Neg R] (cfg : Config R) (ext : Ext R) (score : φ → φ → R) (sf : FW φ) (sl : LQ φ)
+    (cur cur' : List ((φ × R) × τ)) (h : cur.map (·.1) = cur'.map (·.1)) :
+    FW.step cfg ext score sf (cur.map (·.1)) = FW.step cfg ext score sf (cur'.map (·.1)) ∧
+    LQ.step cfg ext score sl (cur.map (·.1)) = LQ.step cfg ext score sl (cur'.map (·.1)) := by
+  rw [h]; exact ⟨rfl, rfl⟩
+
 /-! ## non-vacuity: the hypotheses are met by the fresh tracker and a lawful solver -/
 
 def cfgR (mt : Matcher) (rd : Reduction) : Config Int := ⟨3, 0, mt, rd, Fixes.repaired⟩
